@@ -2244,7 +2244,8 @@ def run_auth_scripts(
             stack_max_item_size=stack_max_item_size,
             callstack_limit=callstack_limit
         )
-        assert tape.has_terminated()
+        if not tape.has_terminated():
+            return False
         contracts = tape.contracts
         plugins = tape.plugins
 
@@ -2261,12 +2262,13 @@ def run_auth_scripts(
             tape.plugins = plugins
             stack.returned = False
             run_tape(tape, stack, cache)
-            assert tape.has_terminated()
+            if not tape.has_terminated():
+                return False
 
-        assert len(stack) == 1
-        item = stack.get()
-        assert item == b'\xff'
-        return True
+        # explicit tests: assert statements vanish under python -O
+        if len(stack) != 1:
+            return False
+        return stack.get() == b'\xff'
     except BaseException as e:
         return False
 
